@@ -65,7 +65,7 @@ def excname(e):
 # =============================================================================================== TLC jobs
 class Job:
     def __init__(self, label, module, constants, invariants=(), properties=(), emit=False, coverage=False,
-                 expect_violation=False, workers=4):
+                 expect_violation=False, workers=3):
         self.label, self.module, self.constants = label, module, constants
         self.invariants, self.properties = list(invariants), list(properties)
         self.emit, self.coverage, self.expect_violation, self.workers = emit, coverage, expect_violation, workers
@@ -243,6 +243,8 @@ def replay_delim_ext(ck, rep, j, variants):
             remap[90000 + k] = nxt
             objs[nxt] = v
             nxt += 1
+        # (the model's file goes on with a later `endstream`: an over-long scan must find one here too)
+        objs[nxt] = Raw(b"<</Length 2>>\nstream\nz\nendstream")
         for k in list(objs):
             if isinstance(objs[k], Raw):
                 b = bytes(objs[k])
@@ -253,6 +255,16 @@ def replay_delim_ext(ck, rep, j, variants):
         offs = info["offsets"][0]
         old = PSBaseParser.BUFSIZ
         PSBaseParser.BUFSIZ = B
+        # observation: where the parser stands when the `stream` branch of do_keyword returns
+        orig_kw = PDFParser.do_keyword
+        left_at = {}
+
+        def do_keyword(self, pos, token):
+            orig_kw(self, pos, token)
+            if token is self.KEYWORD_STREAM:
+                left_at["pos"] = self.bufpos + self.charpos
+
+        PDFParser.do_keyword = do_keyword
         try:
             try:
                 p = PDFParser(io.BytesIO(pdf))
@@ -269,6 +281,7 @@ def replay_delim_ext(ck, rep, j, variants):
                 start = pdf.index(b"stream", offs[objid]) + 6 + len(sr.EOLS[r["ea"]])
                 L = 0 if (fb or r["lk"] in ("missing", "indirect-missing")) else len(payload) + r["dl"]
                 want, want_resume = sr.delivered(pdf, start, L, fb)
+                left_at.clear()
                 try:
                     st = doc.getobj(objid)
                     got = st.get_data() if isinstance(st, PDFStream) else None
@@ -283,15 +296,7 @@ def replay_delim_ext(ck, rep, j, variants):
                     if len(examples) < 3:
                         examples.append("delivered %r, stated %r for %s" % (got, want, {k: r[k] for k in ("p", "ea", "eb", "lk", "dl", "fb")}))
                 # where the parser goes on
-                try:
-                    p.seek(offs[objid])
-                    seq = []
-                    while len(seq) < 8 and not (seq and isinstance(seq[-1], PDFStream)):
-                        seq.append(p.nextobject()[1])
-                    (tpos, tok) = p.nexttoken()
-                    okr = tpos == want_resume and isinstance(tok, PSKeyword) and tok.name == b"endstream"
-                except Exception:        # noqa: BLE001
-                    okr = False
+                okr = left_at.get("pos") == want_resume
                 stats["resume_as_stated" if okr else "resume_differs_from_statement"] += 1
                 # against the ideal: the payload, and the parser at the stream's own endstream
                 ideal_resume = start + len(payload) + len(sr.EOLS[r["eb"]])
@@ -315,7 +320,10 @@ def replay_delim_ext(ck, rep, j, variants):
                 ck.case(2, ("delim-ext", tuple(r["p"]), r["ea"], r["eb"], B, r["lk"], r["dl"], fb) if nontriv else None)
         finally:
             PSBaseParser.BUFSIZ = old
+            PDFParser.do_keyword = orig_kw
 
+    if not hasattr(PDFParser, "do_keyword") or not hasattr(PDFParser, "KEYWORD_STREAM"):
+        raise MachineryError("PDFParser.do_keyword / KEYWORD_STREAM not found")
     n = 0
     for r in lines(j):
         n += 1
@@ -568,9 +576,10 @@ def replay_lzw(ck, rep, j, alpha, minbits, maps, batch, want, dev):
     for r in lines(j):
         n += 1
         h = r["h"]
-        # the writer's codes end with EOD (or with the data); what the as-coded model reads after EOD is not the writer's
-        k_eod = next((i for i, e in enumerate(h) if e[2] == "eod"), len(h) - 1)
-        hw = h[:k_eod + 1]
+        # the writer's codes (cs); the decoder's history h describes them one by one unless a deviation of the
+        # as-coded model made it lose track (trig), and it may go on after EOD
+        cs = r["cs"]
+        hw = h[:len(cs)] if not r["trig"] else []
         if any(e[1] > minbits for e in hw):
             seen.add("width")
         if sum(1 for e in hw if e[2] == "clear") > 1 + (1 if r["xc"] else 0):
@@ -586,13 +595,13 @@ def replay_lzw(ck, rep, j, alpha, minbits, maps, batch, want, dev):
         for mi in maps(n):
             m = sr.LZW_MAPS[mi]
             payload = bytes(m[s] for s in r["x"])
-            codes = sr.lzw_real_codes(hw, alpha, m)
+            codes = sr.lzw_real_codes([(c[0], c[1], "", 0) for c in cs], alpha, m)
             trail = b"".join(TRAIL_REAL[b] for b in r["tr"])
             enc = cd.lzw_pack(codes, r["ec"]) + trail
             got, exc, ev = so.lzw_events(enc, r["ec"])
             ok = judge(payload, got, Exception(exc) if exc else None, trail,
                        "LZW codes " + repr(codes[:24]) + " decoded to %r instead of %r", {"part": "lzw", "enc": enc, "expected": payload})
-            if ok and not trail and ([e["o"] for e in ev] != [e[3] for e in hw] or [e["c"] for e in ev] != codes):
+            if ok and hw and not trail and ([e["o"] for e in ev] != [e[3] for e in hw] or [e["c"] for e in ev] != codes):
                 drift += 1
                 if drift <= 3:
                     ck.note("LZW drift: per-code outputs %r, model %r" % ([e["o"] for e in ev][:20], [e[3] for e in hw][:20]))
@@ -607,7 +616,7 @@ def replay_lzw(ck, rep, j, alpha, minbits, maps, batch, want, dev):
                 attrs["DecodeParms"] = {"EarlyChange": batch.alloc(0) if n % 4 < 2 else 0}
             batch.add(attrs, enc, payload, ("codes=%r" % (codes[:16],), trail))
             ck.case(3, ("lzw", alpha, minbits, tuple(r["x"]), r["xc"], r["eod"], r["ec"], r["df"], tuple(r["tr"]), mi)
-                    if len(hw) > 3 else None)
+                    if len(cs) > 3 else None)
             if batch.full():
                 batch.run(on_result)
         if n % 3000 == 1:
@@ -891,7 +900,7 @@ def sample_streams(ck, rng, chain_traces):
 
 def record_traces(ck, rep, dev, rng, chain_traces):
     lzw, rl, pred = [], [], []
-    budget = {"lzw": 150000, "pred": 8000} if ck.tier == "quick" else {"lzw": 1000000, "pred": 30000}
+    budget = {"lzw": 90000, "pred": 8000} if ck.tier == "quick" else {"lzw": 1000000, "pred": 30000}
     corpus = payload_corpus(ck, rng)
     samples = sample_streams(ck, rng, chain_traces)
     ck.extra["sample_streams_reencoded"] = len(samples)
@@ -1272,29 +1281,30 @@ def run(ck):
     asc_dev = [d for d in dev if d.endswith("WhiteSpace")]
     # ------------------------------------------------------------------ TLC jobs (run concurrently)
     sd_c = {"Syms": '{"x", "CR", "LF", "NUL", "ES", "EO"}', "MaxLen": 3 if quick else 4, "EolAfter": '{"LF", "CRLF"}',
-            "EolBefore": '{"", "LF", "CR", "CRLF"}', "BufSizes": "{2, 5, 64}", "LenKinds": '{"direct", "indirect"}',
+            "EolBefore": '{"", "LF", "CR", "CRLF"}', "BufSizes": "{2, 64}" if quick else "{2, 5, 64}",
+            "LenKinds": '{"direct", "indirect"}',
             "Deltas": "<- DeltasExact", "Fallbacks": "{FALSE}"}
     lzw_dev = [d for d in dev if d.startswith("Lzw")]
 
-    def lz(mx, ml, pre, d="{}", eods="{TRUE, FALSE}", ecs="{1}", defers="{0}", trails="{0}"):
-        return {"Alpha": 2, "MinBits": 3, "MaxBits": mx, "ByteBits": 2, "MaxLen": ml, "Prefix": "<- " + pre, "EODs": eods,
+    def lz(mx, ml, pre, d="{}", eods="{TRUE, FALSE}", ecs="{1}", defers="{0}", trails="{0}", maxxc=99):
+        return {"MaxXC": maxxc, "Alpha": 2, "MinBits": 3, "MaxBits": mx, "ByteBits": 2, "MaxLen": ml, "Prefix": "<- " + pre, "EODs": eods,
                 "ECs": ecs, "Defers": defers, "Trails": trails, "TrailBytes": "{0, 3}", "Dev": d}
     lzw_inv = ["Inverts", "PrefixOK", "WidthSwitchOK", "TableBound", "NoError"]
     # F: 3-bit codes only (table-full, clear at once / deferred / never); W: 3..4 bits (/EarlyChange both ways,
     # bytes after EOD); WF: prefix that fills the table (width switch, table-full, deferred clear, both /EarlyChange)
     lzF = dict(mx=3, ml=8 if quick else 10, pre="PrefixNone", eods="{TRUE}" if quick else "{TRUE, FALSE}",
-               defers="{0, 99}" if quick else "{0, 2, 99}")
-    lzW = dict(mx=4, ml=6 if quick else 9, pre="PrefixNone", ecs="{0, 1}", trails="{0, 1}" if quick else "{0, 1, 2}")
+               defers="{0, 99}" if quick else "{0, 2, 99}", maxxc=4 if quick else 99)
+    lzW = dict(mx=4, ml=5 if quick else 9, pre="PrefixNone", ecs="{0, 1}", trails="{0, 1}" if quick else "{0, 1, 2}")
     lzWF = dict(mx=4, ml=3 if quick else 6, pre="PrefixWF", ecs="{0, 1}", defers="{0, 99}" if quick else "{0, 3, 99}")
     af_c = lambda d: {"Dev": d, "HexBytes": "{0, 74, 160, 255}", "HexMaxLen": 2 if quick else 3,          # noqa: E731
-                      "WSChoice": "{32, 10, 13, 9, 12, 0}", "A85MaxGroups": 2}
+                      "WSChoice": "{32, 10, 12, 0}" if quick else "{32, 10, 13, 9, 12, 0}", "A85MaxGroups": 2}
     pr_c = lambda d, g: {"Dev": d, "Geoms": "<- " + g, "Vals": "{0, 1, 255}", "ValsBig": "{1, 255}",      # noqa: E731
                          "SmallBytes": 4 if quick else 8, "Types": "{0, 1, 2, 3, 4}"}
     geoms = "GeomsQuick" if quick else "GeomsFull"
     jobs = {
         "sd": Job("StreamDelim", "MC_StreamDelim", sd_c, ["PayloadExact", "ResumeOK", "BufferOK"], ["NlProgress"], emit=True,
                   coverage=quick),
-        "fc": Job("FilterChain", "MC_FilterChain", {"Layers": "<- LayersAll", "MaxChain": 2 if quick else 3},
+        "fc": Job("FilterChain", "MC_FilterChain", {"Layers": "<- LayersCore" if quick else "<- LayersAll", "MaxChain": 2 if quick else 3},
                   ["ChainInverts", "PeelsInOrder", "CallsMatch", "CallsAsPredicted"], emit=True, coverage=quick),
         "lzwF": Job("LZW_full", "MC_LZW", lz(**lzF), lzw_inv, emit=True, coverage=quick),
         "lzwW": Job("LZW_width", "MC_LZW", lz(**lzW), lzw_inv, emit=not lzw_dev, coverage=quick),
@@ -1307,7 +1317,7 @@ def run(ck):
                     "WrongLengthStatement"], ["NlProgress"], emit=True),
         "fl": Job("Flate_recovery", "Flate", {"MaxBlocks": 2 if quick else 3, "MaxLit": 2 if quick else 3},
                   ["RecoveredPrefix", "WarnRule", "ChecksumIgnored"], ["Progress"], emit=True, coverage=quick),
-        "rl3": Job("RunLength_H3", "RunLength", {"H": 3, "Bytes": "{0, 1, 2, 3, 4, 5}", "MaxLen": 4 if quick else 5,
+        "rl3": Job("RunLength_H3", "RunLength", {"H": 3, "Bytes": "{0, 1, 2, 3, 4, 5}", "MaxLen": 3 if quick else 5,
                                                  "EODs": "{TRUE, FALSE}"},
                    ["Inverts", "PrefixOK", "RunsOK", "PosOK"], emit=True, coverage=quick),
         "rl2": Job("RunLength_H2", "RunLength", {"H": 2, "Bytes": "{0, 1, 2, 3}", "MaxLen": 4 if quick else 6,
@@ -1321,7 +1331,7 @@ def run(ck):
         ld = tla_set(lzw_dev)
         jobs["lzwWc"] = Job("LZW_width_as_coded", "MC_LZW", lz(d=ld, **lzW), ["InvertsUnlessDev", "TableBound"], emit=True)
         jobs["lzwWFc"] = Job("LZW_width_full_as_coded", "MC_LZW", lz(d=ld, **lzWF), ["InvertsUnlessDev"], emit=True)
-        jobs["lzwr"] = Job("LZW_as_coded_refuted", "MC_LZW", lz(d=ld, **dict(lzW, ml=5)), ["Inverts", "WidthSwitchOK"])
+        jobs["lzwr"] = Job("LZW_as_coded_refuted", "MC_LZW", lz(d=ld, **dict(lzW, ml=4)), ["Inverts", "WidthSwitchOK"], workers=2)
     if asc_dev:
         jobs["afc"] = Job("AsciiFrame_as_coded", "AsciiFrame", af_c(tla_set(asc_dev)), [], emit=True)
         jobs["afr"] = Job("AsciiFrame_as_coded_refuted", "AsciiFrame", af_c(tla_set(asc_dev)), ["Inverts"])
@@ -1330,7 +1340,7 @@ def run(ck):
         jobs["prr"] = Job("Predictor_as_coded_refuted", "MC_Predictor", pr_c(tla_set(png_dev), "GeomsTiny"),
                           ["Inverts", "RowLengthOK"])
     import multiprocessing
-    pool = ThreadPoolExecutor(max_workers=6)
+    pool = ThreadPoolExecutor(max_workers=8)
     procs = ProcessPoolExecutor(max_workers=7, mp_context=multiprocessing.get_context("spawn"))
     init = {"pid": ck.pid, "tier": ck.tier, "seed": ck.seed, "tmp": ck.tmp, "known": ck.known_keys()}
     tf = procs.submit(task, "traces", init, None, {"dev": dev})
